@@ -6,10 +6,25 @@ use indicatif::{ProgressBar, ProgressDrawTarget, ProgressFinish, ProgressStyle, 
 pub const T0: u64 = 1_000_000_000_000;
 pub const TEMPLATES: [&str; 6] = ["{msg}", "{prefix} {pos}/{len}", "{prefix}|{msg}|{pos}/{len}", "{msg}\n{prefix}:{pos}", "\n{msg}", "{pos}"];
 
+/// text for the model: one `cp:w` glyph per character, an SGR colour sequence as one zero-width glyph (`27:0`)
 pub fn enc(s: &str) -> String {
     if s.is_empty() { return "-".into(); }
-    s.chars().map(|c| format!("{}:{}", c as u32, if c == '\n' { 1 } else { unicode_width::UnicodeWidthChar::width(c).unwrap_or(0) })).collect::<Vec<_>>().join(",")
+    let mut out: Vec<String> = Vec::new();
+    let cs: Vec<char> = s.chars().collect();
+    let mut i = 0;
+    while i < cs.len() {
+        if cs[i] == '\x1b' && i + 1 < cs.len() && cs[i + 1] == '[' {
+            let mut j = i + 2;
+            while j < cs.len() && !cs[j].is_ascii_alphabetic() { j += 1; }
+            out.push("27:0".into()); i = j + 1; continue;
+        }
+        let c = cs[i];
+        out.push(format!("{}:{}", c as u32, if c == '\n' { 1 } else { unicode_width::UnicodeWidthChar::width(c).unwrap_or(0) }));
+        i += 1;
+    }
+    out.join(",")
 }
+pub fn plain(s: &str) -> String { console::strip_ansi_codes(s).to_string() }
 
 fn text(rng: &mut Rng, w: u16, multiline: bool) -> String {
     let w = w as u64;
@@ -18,6 +33,13 @@ fn text(rng: &mut Rng, w: u16, multiline: bool) -> String {
     if multiline && rng.chance(1, 4) {
         let k = rng.below(3) + 1;
         for _ in 0..k { let at = rng.below(s.len() as u64 + 1) as usize; s.insert(at, '\n'); }
+    }
+    // colour sequences have no width: around the text, between lines, or as the whole text
+    if rng.chance(1, 8) {
+        let k = rng.below(3) + 1;
+        let mut at: Vec<usize> = (0..k).map(|_| rng.below(s.len() as u64 + 1) as usize).collect();
+        at.sort(); at.reverse();   // insert from the back so that no sequence lands inside another
+        for a in at { s.insert_str(a, *rng.pick(&["\x1b[32m", "\x1b[0m", "\x1b[1;31m"])); }
     }
     s
 }
@@ -90,7 +112,7 @@ pub fn encode(c: &Case) -> String {
 }
 
 fn wrap(line: &str, w: usize) -> Vec<String> {
-    let cs: Vec<char> = line.chars().collect();
+    let cs: Vec<char> = plain(line).chars().collect();
     if cs.is_empty() { return vec![String::new()]; }
     cs.chunks(w).map(|c| c.iter().collect::<String>().trim_end().to_string()).collect()
 }
@@ -132,7 +154,7 @@ pub fn run_case(c: &Case) -> (String, String) {
                 let r2 = rec.clone(); let ls2 = ls.clone(); let w = c.w;
                 let parked = bar.suspend(move || { let parked = r2.cursor().1 == w; for l in &ls2 { r2.write_line(l).unwrap(); } parked });
                 logs.extend(ls.iter().cloned());
-                let swallowed = parked && ls.first().map_or(false, |l| l.is_empty());
+                let swallowed = parked && ls.first().map_or(false, |l| plain(l).is_empty());
                 logs_f30.extend(ls.iter().skip(if swallowed { 1 } else { 0 }).cloned());
             }
             BOp::Reset => { bar.reset(); hidden = false; }
